@@ -37,7 +37,7 @@ TOEP_TAU = {(1.25, 4): 0.0609, (2, 4): 0.006009, (1.5, 3): 0.23, (1.375, 6): 0.0
 
 def bounds(tier):
     return {"leaf alphabets": "vf/opcat.py leaf_specs('%s')" % tier,
-            "tree nodes": "1 over 11 leaves, 2 over 5 leaves" if tier == "quick" else "<= 2 over 11 leaves",
+            "n-ary": "3- and 4-operand Add/Compose/Hstack/Vstack/Diag over 5 leaves (quick) / 3-operand over 11 leaves (thorough)", "tree nodes": "1 over 11 leaves, 2 over 5 leaves" if tier == "quick" else "<= 2 over 11 leaves",
             "cache orders": ["N then H", "H then N"],
             "consumer": "LinearLeastSquares(A, y, lamda=0.1) with the default solver (CG) on every 7th non-Toeplitz configuration with <= 16 inputs and cond <= 1e6; GradientMethod and ADMM as well on every 63rd configuration where cond(A^H A + lamda) <= 50"}
 
@@ -46,6 +46,8 @@ def gen_cases(tier, seed):
     cases = [dict(kind="leaf", spec=s) for s in opcat.leaf_specs(tier)
              if s["op"] not in ("NUFFTAdjoint",) or True]
     for t in programs.trees(programs.LEAVES, 1):
+        cases.append(dict(kind="tree", spec=t))
+    for t in programs.nary_trees(programs.SUB5 if tier == "quick" else programs.LEAVES, (3, 4) if tier == "quick" else (3,)):
         cases.append(dict(kind="tree", spec=t))
     if tier == "quick":
         for t in programs.trees(programs.SUB5, 2, all_axes=False, scalars=programs.SCALARS[:2]):
